@@ -3,8 +3,9 @@ import Storrent.Util
 Model of tor/torfile.go (validation layer and byte layer) for C13, reused by C12.
 
 (a) `metadataComplete : Int → BInfo → Res Geom` transcribes Torrent.MetadataComplete
-    (the REPAIRED code: piece length 0, negative/overflowing file lengths and a piece
-    table of the wrong size are rejected) check by check, in the order written, with Go's
+    (the REPAIRED code: piece length 0, negative/overflowing file lengths, a piece table
+    of the wrong size, unusable names and path components, duplicate paths and files that
+    are also directories are rejected) check by check, in the order written, with Go's
     integer types: PieceLength uint32, lengths int64 (`Int64` fields; the arithmetic is
     done on `Int` with `wrap64` wherever Go's int64 arithmetic could wrap),
     `chunks != int64(uint32(chunks))`, Pieces.MetadataComplete's
@@ -44,8 +45,8 @@ structure BInfo where
   deriving Repr, DecidableEq
 
 inductive MErr where
-  | oddPieces | oddPiece | both | neither | noPath | badFileLength | tooLarge
-  | wrongHashes | noName
+  | oddPieces | oddPiece | both | neither | noPath | badFileLength | badFilePath
+  | dupPath | fileIsDir | tooLarge | wrongHashes | noName | badName
   deriving Repr, DecidableEq
 
 inductive Res (α : Type) where
@@ -84,6 +85,10 @@ def pickPath (f : BFile) : Option (List Bytes) :=
   | some p => some p
   | none => f.path
 
+/-- validComponent: usable as the name of a file or directory -/
+def validComponent (c : Bytes) : Bool :=
+  c != [] && c != [46] && c != [46, 46] && !c.contains 47
+
 /-- `for _, f := range info.Files { … }`: accumulates Torfiles (reversed) and `length` -/
 def layout : List BFile → Int → List GFile → Res (List GFile × Int)
   | [], acc, out => .ok (out.reverse, acc)
@@ -91,10 +96,42 @@ def layout : List BFile → Int → List GFile → Res (List GFile × Int)
     match pickPath f with
     | none => .err .noPath
     | some p =>
-      if f.length.toInt < 0 ∨ f.length.toInt > maxInt64 - acc then .err .badFileLength
+      if p = [] then .err .noPath                      -- len(path) == 0
+      else if f.length.toInt < 0 ∨ f.length.toInt > maxInt64 - acc then .err .badFileLength
+      else if !p.all validComponent then .err .badFilePath
       else layout rest (wrap64 (acc + f.length.toInt))
         ({ path := p, offset := acc, length := f.length.toInt,
            padding := f.attr.contains 112 } :: out)
+
+/-- Path.String(): strings.Join(p, "/") -/
+def joinPath : List Bytes → Bytes
+  | [] => []
+  | [c] => c
+  | c :: d :: r => c ++ 47 :: joinPath (d :: r)
+
+/-- first loop over `files`: `if paths[p] { duplicate }; paths[p] = true`; returns the keys -/
+def dupCheck : List GFile → List Bytes → Res (List Bytes)
+  | [], seen => .ok seen
+  | f :: rest, seen =>
+    if seen.contains (joinPath f.path) then .err .dupPath
+    else dupCheck rest (joinPath f.path :: seen)
+
+/-- `f.Path[:i]` for `1 ≤ i < len(f.Path)` -/
+def properPrefixes (p : List Bytes) : List (List Bytes) :=
+  (List.range' 1 (p.length - 1)).map (fun i => p.take i)
+
+/-- second loop: a proper prefix of a path is itself a file's path -/
+def dirCheck (keys : List Bytes) : List GFile → Res Unit
+  | [] => .ok ()
+  | f :: rest =>
+    if (properPrefixes f.path).any (fun q => keys.contains (joinPath q)) then .err .fileIsDir
+    else dirCheck keys rest
+
+def pathChecks (files : List GFile) : Res Unit :=
+  match dupCheck files [] with
+  | .ok keys => dirCheck keys files
+  | .err e => .err e
+  | .panic w => .panic w
 
 /-- Pieces.MetadataComplete(psize, length): number of pieces allocated -/
 def piecesMetadataComplete (psLen : Int) (psize : UInt32) (length : Int) : Res Nat :=
@@ -138,13 +175,16 @@ def sizeChecks (bi : BInfo) (length : Int) : Res Nat :=
 /-- `if info.Name8 != "" { Name = Name8 } else { Name = info.Name }; if Name == "" …` -/
 def pickName (bi : BInfo) : Res Bytes :=
   let name := if bi.name8 ≠ [] then bi.name8 else bi.name
-  if name = [] then .err .noName else .ok name
+  if name = [] then .err .noName
+  else if !validComponent name then .err .badName
+  else .ok name
 
 def metadataComplete (psLen : Int) (bi : BInfo) : Res Geom :=
   if bi.pieces.length % 20 ≠ 0 then .err .oddPieces
   else if bi.pieceLength.toNat = 0 ∨ bi.pieceLength.toNat % 16384 ≠ 0 then .err .oddPiece
   else
     (lengthAndFiles bi).bind fun lf =>
+    (pathChecks lf.2.1).bind fun _ =>
     (sizeChecks bi lf.2.2).bind fun chunks =>
     (pickName bi).bind fun name =>
     (piecesMetadataComplete psLen bi.pieceLength lf.2.2).bind fun n =>
